@@ -585,9 +585,7 @@ void flush_tally()
     }
     for (int l = 0; l < L_COUNT; ++l) {
         if (g_t.lab[l][1] != 0) {
-            auto& c = vf::stats().classes[LABS[l]];
-            c.first += g_t.lab[l][0];
-            c.second += g_t.lab[l][1];
+            vf::label(LABS[l], g_t.lab[l][0], g_t.lab[l][1]);
         }
     }
     g_t = Tally{};
@@ -1065,7 +1063,7 @@ void run_group(GroupDesc const& g, vf::Ctx& c)
     vf::nontrivial_count(nt);
     // seeded random counts over the whole range of the rep (bit width chosen uniformly)
     vf::Rng rng(c.seed * 1000003ULL + static_cast<std::uint64_t>(g.C * 100 + g.I * 10 + g.J));
-    int const nrand = c.thorough() ? 100000 : 1500;
+    int const nrand = c.thorough() ? 50000 : 1500;
     for (int r = 0; r < nrand; ++r) {
         int const maxw = K1 == 0 ? 31 : K1 == 1 ? 63 : 53;
         auto const w   = static_cast<int>(rng.below(static_cast<std::uint64_t>(maxw))) + 1;
@@ -1195,6 +1193,21 @@ void aliases(int only)
     }
 }
 
+// operations of std::chrono that the tree does not provide (or that do not compile) are not part of the check; the
+// evidence records which ones were found missing so that a later tree that gains them is noticed
+void missing_operations()
+{
+    auto rec = [](char const* name, bool present) { vf::count(name, present ? 1 : 0); };
+    using TP = ec::time_point<ec::system_clock, ec::seconds>;
+    rec("etl_provides.duration*scalar", [](auto d) { return requires { d * 2; }; }(ec::seconds{}));
+    rec("etl_provides.scalar*duration", [](auto d) { return requires { 2 * d; }; }(ec::seconds{}));
+    rec("etl_provides.duration/scalar", [](auto d) { return requires { d / 2; }; }(ec::seconds{}));
+    rec("etl_provides.duration%scalar", [](auto d) { return requires { d % 2; }; }(ec::seconds{}));
+    rec("etl_provides.time_point+duration", [](auto t, auto d) { return requires { t + d; }; }(TP{}, ec::seconds{}));
+    rec("etl_provides.time_point-duration", [](auto t, auto d) { return requires { t - d; }; }(TP{}, ec::seconds{}));
+    rec("etl_provides.time_point-time_point", [](auto t) { return requires { t - t; }; }(TP{}));
+}
+
 auto sub_id(std::string const& s) -> int
 {
     for (int i = 0; i < S_COUNT; ++i) {
@@ -1207,7 +1220,10 @@ auto sub_id(std::string const& s) -> int
 
 void vf_run(vf::Ctx& c)
 {
-    if (C12_SLICE == 0 && c.shard == 0) { aliases(-1); }
+    if (C12_SLICE == 0 && c.shard == 0) {
+        aliases(-1);
+        missing_operations();
+    }
     std::uint64_t work = 0;
     for (auto const& g : g_table) {
         if (!present(g)) { continue; }
